@@ -568,7 +568,9 @@ fn run_sequence_inner(seq: &[usize], full: bool, keepalive: bool) -> (Vec<Findin
         outcome.push(format!("{}={}", its[i].name, tag));
         let dead = fs.iter().any(|f| f.kind == "http.no_response");
         findings.extend(fs);
-        if dead && keepalive {
+        // a cut upload ends with the client closing its write side: that connection cannot carry
+        // another request
+        if keepalive && (dead || its[i].name.contains("cut")) {
             conn = Conn::open(&server.sock).ok();
         }
     }
